@@ -271,10 +271,10 @@ func convCase(c *enum.Ctx, k kase) bool {
 // ---- histories of accepted / rejected updates
 
 type opDef struct {
-	name string
-	set  bool // SetExons (else Exons.Add followed by SetExons of the result when accepted)
-	only bool // Add only: the result is discarded
-	ivs  []iv
+	name  string
+	set   bool // SetExons (else Exons.Add followed by SetExons of the result when accepted)
+	only  bool // Add only: the result is discarded
+	ivs   []iv
 	alien bool // exons located on another transcript
 }
 
